@@ -3,7 +3,8 @@
    override, `not` applies to a path, keywords are recognised at word boundaries only. *)
 From Coq Require Import String.
 From Coq Require Import List NArith ZArith Bool Lia Arith.
-From HS Require Import Base.Prelude Model.Value Model.Filter.
+From HS Require Import Base.Prelude Model.Value Model.Escape Model.Json Model.Filter.
+From HS Require Import Proofs.EscapeP.
 Import ListNotations.
 Open Scope N_scope.
 
@@ -66,10 +67,32 @@ Fixpoint or_terms (e : fexpr) : list fexpr := match e with FOr a b => or_terms a
 
 Fixpoint size (e : fexpr) : nat := match e with FAnd a b | FOr a b => S (size a + size b) | _ => 1%nat end.
 
+(* comparison atoms: name, one blank, operator, one blank, literal *)
+Definition op_text (op : cmpop) : str :=
+  match op with CEq => [61; 61] | CNe => [33; 61] | CLe => [60; 61] | CGe => [62; 61] | CLt => [60] | CGt => [62] end.
+Definition pr_val (v : hval) : str :=
+  match v with
+  | VBool true => [116; 114; 117; 101]
+  | VBool false => [102; 97; 108; 115; 101]
+  | VNum NkFin d _ None => d
+  | VStr s => match escape_str s with Ok e => DQ :: e ++ [DQ] | Raise _ => [] end
+  | _ => []
+  end.
+(* literals the printer may use: booleans, unsigned digit runs, every string *)
+Definition val_ok (v : hval) : Prop :=
+  match v with
+  | VBool _ => True
+  | VNum NkFin d d' None => d' = d /\ d <> [] /\ Forall (fun c => is_dig c = true) d
+  | VStr _ => True
+  | _ => False
+  end.
+Definition pr_cmp (n : str) (op : cmpop) (v : hval) : str := n ++ 32 :: op_text op ++ 32 :: pr_val v.
+
 Fixpoint pr_term (e : fexpr) : str :=
   match e with
   | FHas [n] => n
   | FMissing [n] => 110 :: 111 :: 116 :: 32 :: n
+  | FCmp op [n] v => pr_cmp n op v
   | FAnd a b => 40 :: pr_and_i a ++ T_AND ++ pr_term b ++ [41]
   | FOr a b => 40 :: pr_or_i a ++ T_OR ++ pr_and_i b ++ [41]
   | _ => []
@@ -80,6 +103,7 @@ with pr_and_i (e : fexpr) : str :=
   | FOr a b => 40 :: pr_or_i a ++ T_OR ++ pr_and_i b ++ [41]
   | FHas [n] => n
   | FMissing [n] => 110 :: 111 :: 116 :: 32 :: n
+  | FCmp op [n] v => pr_cmp n op v
   | _ => []
   end
 with pr_or_i (e : fexpr) : str :=
@@ -88,12 +112,14 @@ with pr_or_i (e : fexpr) : str :=
   | FAnd a b => pr_and_i a ++ T_AND ++ pr_term b
   | FHas [n] => n
   | FMissing [n] => 110 :: 111 :: 116 :: 32 :: n
+  | FCmp op [n] v => pr_cmp n op v
   | _ => []
   end.
 
 Fixpoint printable (e : fexpr) : Prop :=
   match e with
   | FHas [n] | FMissing [n] => simple_name n
+  | FCmp op [n] v => simple_name n /\ val_ok v
   | FAnd a b | FOr a b => printable a /\ printable b
   | _ => False
   end.
@@ -207,6 +233,101 @@ Section Term2.
     rewrite L, H. reflexivity.
   Qed.
 End Term2.
+
+(* ---------- comparison atoms ---------- *)
+Lemma dig_cases c : is_dig c = true ->
+  c = 48 \/ c = 49 \/ c = 50 \/ c = 51 \/ c = 52 \/ c = 53 \/ c = 54 \/ c = 55 \/ c = 56 \/ c = 57.
+Proof. unfold is_dig. intro H. apply andb_true_iff in H as [H1 H2]. apply N.leb_le in H1. apply N.leb_le in H2. lia. Qed.
+
+Lemma p_val_bool b p r : exists q, p_val (mkInp p (32 :: pr_val (VBool b) ++ r)) = Some (VBool b, mkInp q r).
+Proof. destruct b; eexists; reflexivity. Qed.
+
+Lemma p_val_str s p r : exists q, p_val (mkInp p (32 :: pr_val (VStr s) ++ r)) = Some (VStr s, mkInp q r).
+Proof.
+  unfold pr_val, escape_str.
+  destruct (esc_all_total DQ str_esc_letters false esc_str_char every_char_str s) as [e He]. rewrite He.
+  cbn [List.app]. rewrite <- app_assoc. cbn [List.app].
+  pose proof (quoted_roundtrip DQ str_esc_letters false esc_str_char dq_ne dq_32 every_char_str s e r He) as Q.
+  set (t := (e ++ DQ :: r)%list) in *.
+  unfold p_val.
+  assert (R1 : p_ref (mkInp p (32 :: DQ :: t)) = None) by reflexivity. rewrite R1.
+  assert (R2 : p_number (mkInp p (32 :: DQ :: t)) = None) by reflexivity. rewrite R2.
+  assert (R3 : lit [78; 65] (mkInp p (32 :: DQ :: t)) = None) by reflexivity. rewrite R3.
+  assert (R4 : lit [78] (mkInp p (32 :: DQ :: t)) = None) by reflexivity. rewrite R4.
+  assert (R5 : lit [77] (mkInp p (32 :: DQ :: t)) = None) by reflexivity. rewrite R5.
+  assert (R6 : lit [116; 114; 117; 101] (mkInp p (32 :: DQ :: t)) = None) by reflexivity. rewrite R6.
+  assert (R7 : lit [102; 97; 108; 115; 101] (mkInp p (32 :: DQ :: t)) = None) by reflexivity. rewrite R7.
+  unfold p_qstr, to_inp_result. change (ws (mkInp p (32 :: DQ :: t))) with (mkInp 32 (DQ :: t)). cbn [rest].
+  unfold hs_str. rewrite Q. eexists. reflexivity.
+Qed.
+
+Lemma span_run_all f : forall u rest, Forall (fun c => f c = true) u ->
+  (match rest with c :: _ => f c = false | [] => True end) -> span f (u ++ rest) = (u, rest).
+Proof.
+  induction u as [|c u IH]; intros rest Hu Hr; cbn [List.app].
+  - destruct rest as [|c r]; cbn [span]; [reflexivity|]. rewrite Hr. reflexivity.
+  - inversion Hu; subst. cbn [span]. rewrite H1. rewrite (IH rest H2 Hr). reflexivity.
+Qed.
+Lemma dig_is_dig_us c : is_dig c = true -> is_dig_us c = true.
+Proof. intro H. unfold is_dig_us. rewrite H. reflexivity. Qed.
+
+Lemma decimal_digits c d r : is_dig c = true -> Forall (fun x => is_dig x = true) d -> follow r ->
+  p_decimal_text (c :: d ++ r) = Some (c :: d, r).
+Proof.
+  intros Hc Hd Hf.
+  assert (Sp : span is_dig_us (c :: d ++ r) = (c :: d, r)).
+  { apply (span_run_all is_dig_us (c :: d) r).
+    - constructor; [apply dig_is_dig_us; exact Hc|]. eapply Forall_impl; [|exact Hd]. intros x Hx. apply dig_is_dig_us. exact Hx.
+    - destruct Hf as [|x|x|x]; [exact I|reflexivity|reflexivity|reflexivity]. }
+  unfold p_decimal_text.
+  destruct (dig_cases c Hc) as [E|[E|[E|[E|[E|[E|[E|[E|[E|E]]]]]]]]]; subst c; cbv iota beta; rewrite Sp;
+    destruct Hf as [|x|x|x]; cbn; rewrite ?app_nil_r; reflexivity.
+Qed.
+
+Lemma p_val_num d p r : d <> [] -> Forall (fun c => is_dig c = true) d -> follow r ->
+  exists q, p_val (mkInp p (32 :: d ++ r)) = Some (VNum NkFin d d None, mkInp q r).
+Proof.
+  intros Hne Hd Hf. destruct d as [|c d]; [contradiction|]. inversion Hd as [|? ? Hc Hd']; subst.
+  cbn [List.app]. unfold p_val.
+  assert (W : ws (mkInp p (32 :: c :: d ++ r)) = mkInp 32 (c :: d ++ r)).
+  { apply ws_one_blank. destruct (dig_cases c Hc) as [E|[E|[E|[E|[E|[E|[E|[E|[E|E]]]]]]]]]; subst c; reflexivity. }
+  assert (R1 : p_ref (mkInp p (32 :: c :: d ++ r)) = None).
+  { unfold p_ref, lit. rewrite W. cbn [eat rest].
+    destruct (dig_cases c Hc) as [E|[E|[E|[E|[E|[E|[E|[E|[E|E]]]]]]]]]; subst c; reflexivity. }
+  rewrite R1. unfold p_number. rewrite W. unfold to_inp_result. cbn [rest].
+  rewrite (decimal_digits c d r Hc Hd' Hf).
+  destruct Hf as [|x|x|x]; eexists; reflexivity.
+Qed.
+
+Lemma p_val_ok v p r : val_ok v -> follow r -> exists q, p_val (mkInp p (32 :: pr_val v ++ r)) = Some (v, mkInp q r).
+Proof.
+  intros Hv Hf. destruct v; cbn [val_ok] in Hv; try contradiction.
+  - apply p_val_bool.
+  - destruct k; try contradiction. destruct unit; try contradiction. destruct Hv as [E [Hne Hd]]. subst jtok.
+    cbn [pr_val]. apply p_val_num; assumption.
+  - apply p_val_str.
+Qed.
+
+Lemma p_cmpop_text op p t : p_cmpop (mkInp p (32 :: op_text op ++ 32 :: t)) = Some (op, mkInp (last (op_text op) 0) (32 :: t)).
+Proof. destruct op; reflexivity. Qed.
+Lemma no_arrow_before_op op p t : lit [45; 62] (mkInp p (32 :: op_text op ++ t)) = None.
+Proof. destruct op; reflexivity. Qed.
+
+Section Term3.
+  Variable inner : fparser fexpr.
+  Lemma term_cmp n op v p r : simple_name n -> val_ok v -> follow r ->
+    exists q, p_term_with inner (mkInp p (pr_cmp n op v ++ r)) = Some (FCmp op [n] v, mkInp q r).
+  Proof.
+    intros Hn Hv Hf. unfold pr_cmp. rewrite <- app_assoc. cbn [List.app]. rewrite <- app_assoc. cbn [List.app].
+    assert (St : stop (32 :: op_text op ++ 32 :: pr_val v ++ r)) by (right; eexists; left; reflexivity).
+    unfold p_term_with. rewrite (lit_paren_name n _ p Hn). rewrite (kw_not_name n _ p Hn St).
+    assert (P : p_path (mkInp p (n ++ 32 :: op_text op ++ 32 :: pr_val v ++ r)) = Some ([n], mkInp (last n p) (32 :: op_text op ++ 32 :: pr_val v ++ r))).
+    { unfold p_path. rewrite (p_name_simple n p _ Hn St). cbn [rest length]. cbn [p_path_rest].
+      rewrite no_arrow_before_op. reflexivity. }
+    rewrite P. rewrite p_cmpop_text.
+    destruct (p_val_ok v (last (op_text op) 0) r Hv Hf) as [q Hq]. rewrite Hq. exists q. reflexivity.
+  Qed.
+End Term3.
 
 (* ---------- chains ---------- *)
 Section Chain.
@@ -328,9 +449,10 @@ Section Main.
   Lemma term_ok t p r : okterm t -> follow r -> is_kw_char p = false ->
     exists q, p_term_with inner (mkInp p (pr_term t ++ r)) = Some (t, mkInp q r).
   Proof.
-    intros [Hp Hs] Hf Hk. destruct t as [[|n [|? ?]]|[|n [|? ?]]|op pp v|a b|a b]; cbn [printable] in Hp; try contradiction.
+    intros [Hp Hs] Hf Hk. destruct t as [[|n [|? ?]]|[|n [|? ?]]|op [|n [|? ?]] v|a b|a b]; cbn [printable] in Hp; try contradiction.
     - eexists. cbn [pr_term]. apply term_has; assumption.
     - eexists. cbn [pr_term List.app]. apply term_missing; assumption.
+    - cbn [pr_term]. destruct Hp as [Hn Hv]. apply term_cmp; assumption.
     - destruct Hs as [Hs|Hs]; [discriminate|]. rewrite pr_term_compound by reflexivity.
       destruct (A (FAnd a b) Hp Hs (41 :: r) (or_intror (ex_intro _ r eq_refl))) as [q Hq].
       eexists. cbn [List.app]. rewrite <- app_assoc. cbn [List.app]. eapply term_paren. exact Hq.
@@ -425,7 +547,8 @@ Proof.
   induction e as [p|p|op p v|a IHa b IHb|a IHa b IHb]; cbn [printable]; intro H.
   - destruct p as [|n [|? ?]]; try contradiction. destruct H as [Hne _]. destruct n; [contradiction|]. cbn. repeat split; lia.
   - destruct p as [|n [|? ?]]; try contradiction. cbn. repeat split; lia.
-  - contradiction.
+  - destruct p as [|n [|? ?]]; try contradiction. destruct H as [[Hne _] _]. destruct n; [contradiction|].
+    cbn [size pr_term pr_and_i pr_or_i pr_cmp List.app length]. repeat split; lia.
   - destruct H as [Ha Hb]. destruct (IHa Ha) as [A1 [A2 A3]]. destruct (IHb Hb) as [B1 [B2 B3]].
     cbn [size pr_term pr_and_i pr_or_i length]. rewrite !app_length. cbn [length T_AND]. repeat split; lia.
   - destruct H as [Ha Hb]. destruct (IHa Ha) as [A1 [A2 A3]]. destruct (IHb Hb) as [B1 [B2 B3]].
